@@ -67,6 +67,10 @@ class Env:
             ctx.cdb[cid] = rec
             if cid in self.kj:
                 ctx.keyjar.import_jwks(self.kj[cid].export_jwks(), cid)
+        # one more client, registered DYNAMICALLY through the registration endpoint (whatever that does to the key jar is part of the provider)
+        reg = self.s.get_endpoint("registration")
+        out = reg.process_request(reg.parse_request({"redirect_uris": ["https://dyn.example.com/cb"], "token_endpoint_auth_method": "client_secret_jwt"}))
+        self.dyn = (out["response_args"]["client_id"], out["response_args"]["client_secret"])
         self.issuer = ctx.issuer
         self.url = {name: self.s.get_endpoint(name).full_path for name in ENDPOINTS}
 
@@ -87,7 +91,7 @@ def env():
 
 
 SECRET_KINDS = ["right", "wrong", "other", "empty"]
-ASSERT_KINDS = ["own_hs", "own_key", "other_key", "foreign_key", "hs_other_secret", "own_key_as_secretjwt", "none_alg", "unknown_iss"]
+ASSERT_KINDS = ["own_hs", "own_key", "other_key", "foreign_key", "hs_other_secret", "hs_dyn_secret", "own_key_as_secretjwt", "none_alg", "unknown_iss"]
 AUD_KINDS = ["endpoint", "issuer", "wrong", "list_with_endpoint", "other_endpoint"]
 
 
@@ -197,6 +201,9 @@ def build(E, r, cache=None, idx=None):
         signer = None
         if k == "own_hs":
             kj.add_symmetric(iss, E.clients[cid]["secret"] or "nosecret-nosecret-nosecret-nosecret"); alg = "HS256"; signer = ("secret", cid if E.clients[cid]["secret"] else None)
+        elif k == "hs_dyn_secret":
+            # HS256 under the secret of ANOTHER registered client (the dynamically registered one), naming `cid` as issuer
+            kj.add_symmetric(iss, E.dyn[1]); alg = "HS256"; signer = ("secret", E.dyn[0])
         elif k == "hs_other_secret":
             kj.add_symmetric(iss, "a-completely-different-secret-0123456789"); alg = "HS256"; signer = ("secret", None)
         elif k in ("own_key", "own_key_as_secretjwt"):
@@ -494,6 +501,9 @@ def corpus():
                                           rq(ep, "cB", assertion=a("corpus-claim-%s" % ep), post={"kind": "empty", "id": "cA"}),
                                           rq(ep, "cA", assertion=a("corpus-claim2-%s" % ep, kind="own_hs"), post={"kind": "empty", "id": "cB"}),
                                           rq(ep, "cF", basic={"kind": "right"}, post={"kind": "empty", "id": "nobody"})]})
+    # an assertion made with another registered client's secret
+    for ep in ("token", "introspection"):
+        out.append({"t": "hist", "reqs": [rq(ep, "cA", assertion=a("corpus-dyn-%s" % ep, kind="hs_dyn_secret")), rq(ep, "cB", assertion=a("corpus-dyn2-%s" % ep, kind="hs_dyn_secret"))]})
     # a client-credentials request that only names the client (no secret registered, key-only client): no credential, no token
     out.append({"t": "hist", "reqs": [rq("token", "cC", post={"kind": "empty", "id": "cC"}, cc=True), rq("token", "cA", post={"kind": "empty", "id": "cA"}, cc=True),
                                       rq("token", "cA", post={"kind": "right", "id": "cA"}, cc=True), rq("token", "cB", basic={"kind": "right"}, cc=True)]})
